@@ -243,3 +243,115 @@ impl Fmt for PqFmt {
         serde_json::json!({"format": "parquet", "cfg": format!("{:?}", self.cfg), "flush_after": self.flush_after})
     }
 }
+
+
+// ---------------------------------------------------------------------------------------------
+// The asynchronous Parquet writer and reader over the same simulated devices (C18, async seams)
+// ---------------------------------------------------------------------------------------------
+
+/// `AsyncArrowWriter` over a tokio `AsyncWrite` face of the sink and `ParquetRecordBatchStream` over an
+/// `AsyncRead + AsyncSeek` face of the source, both driven by the manual executor with seeded `Pending`s.
+pub struct PqAsyncFmt {
+    pub inner: PqFmt,
+    pub pending_rate: u64,
+}
+
+impl Fmt for PqAsyncFmt {
+    fn name(&self) -> &'static str {
+        "parquet.async"
+    }
+    fn trunc(&self) -> Trunc {
+        Trunc::Reject
+    }
+    fn write(&self, ctx: &Ctx, sink: SimSink, post: Post) -> WOut {
+        use parquet::arrow::AsyncArrowWriter;
+        use simcore::aio::{Executor, Gate, SimAsyncSink};
+        set_component("parquet.async_writer");
+        let gate = Gate::new();
+        let asink = SimAsyncSink::over(ctx, &gate, sink, self.pending_rate);
+        let mut ex = Executor::new(ctx, &gate);
+        let wl = &self.inner.wl;
+        let flush_after = &self.inner.flush_after;
+        let props = self.inner.cfg.props_for(&wl.schema);
+        let fut = async move {
+            let mut w = match AsyncArrowWriter::try_new(asink, wl.schema.clone(), Some(props)) {
+                Ok(w) => w,
+                Err(e) => return WOut::fail("try_new", e),
+            };
+            for (i, b) in wl.batches.iter().enumerate() {
+                if let Err(e) = w.write(b).await {
+                    // the caller stops at the first error; `into_inner` hands the sink back without flushing
+                    if post == Post::IntoInner {
+                        let _ = w.into_inner();
+                    }
+                    return WOut::fail("write", e);
+                }
+                if flush_after.contains(&i) {
+                    if let Err(e) = w.flush().await {
+                        if post == Post::IntoInner {
+                            let _ = w.into_inner();
+                        }
+                        return WOut::fail("flush", e);
+                    }
+                }
+            }
+            match w.close().await {
+                Ok(_) => WOut::ok(),
+                Err(e) => WOut::fail("close", e),
+            }
+        };
+        match ex.block_on(fut, "parquet.async_writer") {
+            Ok(w) => w,
+            Err(v) => {
+                let mut w = WOut::fail("executor", &v.detail);
+                w.sim_violation = Some(v);
+                w
+            }
+        }
+    }
+    fn read(&self, ctx: &Ctx, data: Arc<Vec<u8>>, plan: Plan) -> ROut {
+        use futures::StreamExt;
+        use parquet::arrow::async_reader::ParquetRecordBatchStreamBuilder;
+        use simcore::aio::{Executor, Gate, SimAsyncSource};
+        set_component("parquet.async_reader");
+        let gate = Gate::new();
+        let src = SimSource::new(ctx, data, plan);
+        let mut out = ROut::new(src.st.clone());
+        let asrc = SimAsyncSource::new(ctx, &gate, src, self.pending_rate);
+        let mut ex = Executor::new(ctx, &gate);
+        let opts = parquet::arrow::arrow_reader::ArrowReaderOptions::new().with_page_index_policy(if self.inner.cfg.page_index { parquet::file::metadata::PageIndexPolicy::Optional } else { parquet::file::metadata::PageIndexPolicy::Skip });
+        let bs = self.inner.cfg.reader_batch;
+        let res = ex.block_on(
+            async {
+                let b = match ParquetRecordBatchStreamBuilder::new_with_options(asrc, opts).await {
+                    Ok(b) => b,
+                    Err(e) => {
+                        out.err = Some(e.to_string());
+                        return;
+                    }
+                };
+                let mut s = match b.with_batch_size(bs).build() {
+                    Ok(s) => s,
+                    Err(e) => {
+                        out.err = Some(e.to_string());
+                        return;
+                    }
+                };
+                loop {
+                    let item = s.next().await;
+                    if !out.take(item) {
+                        break;
+                    }
+                }
+            },
+            "parquet.async_reader",
+        );
+        if let Err(v) = res {
+            out.sim_violation = Some(v);
+        }
+        out
+    }
+    fn describe(&self) -> serde_json::Value {
+        serde_json::json!({"format": "parquet.async", "cfg": format!("{:?}", self.inner.cfg), "flush_after": self.inner.flush_after, "pending_rate": self.pending_rate})
+    }
+}
